@@ -396,3 +396,24 @@ Fixpoint tr_run (detect : bool) (s : option bool) (ops : list tr_op) : list (opt
   | [] => []
   | o :: r => let '(s', out) := tr_step detect s o in out :: tr_run detect s' r
   end.
+(* the self-test warning ("trickery doesn't work on this interpreter"): emitted by exactly the check that
+   performs a FAILING auto-detection; a remembered result (Some _) never re-tests and never warns *)
+Definition tr_warn (detect : bool) (s : option bool) (o : tr_op) : bool :=
+  match o, s with
+  | TCheck, None => negb detect
+  | _, _ => false
+  end.
+Fixpoint tr_warns (detect : bool) (s : option bool) (ops : list tr_op) : list bool :=
+  match ops with
+  | [] => []
+  | o :: r => tr_warn detect s o :: tr_warns detect (fst (tr_step detect s o)) r
+  end.
+(* correspondence case: the auto-detection result of the environment, an operation sequence run from the
+   undetermined state, the mode each operation observed (None for a set) and whether it emitted the warning *)
+Definition mode_case := (bool * list tr_op * list (option bool) * list bool)%type.
+Definition mode_ok (x : mode_case) : bool :=
+  let '(d, ops, outs, ws) := x in
+  list_eqb (option_eqb Bool.eqb) (tr_run d None ops) outs && list_eqb Bool.eqb (tr_warns d None ops) ws.
+Definition mode_mismatches (cases : list mode_case) : list nat := false_indices 0 (map mode_ok cases).
+Definition mode_nontrivial (cases : list mode_case) : nat :=
+  count_true (map (fun x : mode_case => let '(_, ops, _, _) := x in Nat.ltb 1 (length ops)) cases).
